@@ -1,5 +1,6 @@
 """C05 — Higher-priority work is served first, FIFO among equals (structure the ordering argument rests on)."""
 from rules.common import start
+from rules import wave2
 from rules import queues
 
 
@@ -20,4 +21,6 @@ def run(tier):
     queues.source_rule(run, f, "C05-SOURCE")
     queues.steal_api_rule(run, f, "C05-STEAL-API")
     queues.bucket_capacity_rule(run, f, "C05-BUCKET-CAPACITY")
+    # clauses added for the wave-2 seeds (rules/wave2.py; DESIGN 12a)
+    wave2.return_at_first_hit_rule(run, f, "C05-FIRST-HIT")
     return run.finish()
